@@ -117,16 +117,26 @@ func ZZ_C04_StructFields(sv *zzsv.T) {
 			obj = &b
 		}
 	}
-	shadow := sv.Choice("shadow", 2) == 1
+	shadowMode := sv.Choice("shadow", 4)
+	shadow := shadowMode > 0
 	e := New("return " + name + ";")
 	if name == "M" {
 		e.Script = "return M[\"k\"];"
+	}
+	switch shadowMode {
+	case 2: // another field is read first (the object has been inspected already)
+		e.Script = "probe = B; " + e.Script
+	case 3: // the variable is assigned by the script after another field was read
+		e.Script = "probe = S; " + name + " = 4242; " + e.Script
 	}
 	sv.Note("script", e.Script)
 	if shadow {
 		sv.Assume(name != "$I64")
 		sv.Assume(name != "M")
-		e.SetVariable(name, &object.Integer{Value: 4242})
+		sv.Assume(name != "B" && name != "S")
+		if shadowMode != 3 {
+			e.SetVariable(name, &object.Integer{Value: 4242})
+		}
 	}
 	sv.Assume(e.Prepare() == nil)
 	out, err := e.Execute(obj)
